@@ -8,7 +8,8 @@ FIRST_RUN_R2 = {  # verdict of the checks as they stood when the round-2 change 
  "missed": "C04-r2m1 C08-r2m2 C10-r2m1 C11-r2m1 C11-r2m2 C12-r2m1 C15-r2m2".split(),
  "checker-crash(exit 2)": "C07-r2m1 C07-r2m2".split(),
 }
-for d in sorted(glob.glob(os.path.join(HERE, "seeded", "*"))):
+FIRST_RUN_LATER = json.load(open(os.path.join(HERE, "seeded", "FIRST_RUN.json"))) if os.path.exists(os.path.join(HERE, "seeded", "FIRST_RUN.json")) else {}
+for d in sorted(glob.glob(os.path.join(HERE, "seeded", "C*"))):
     sid = os.path.basename(d)
     a = json.load(open(os.path.join(d, "agent.json")))
     conf = dict(l.strip().split("=", 1) for l in open(os.path.join(d, "confirm.txt")) if "=" in l and not l.startswith("SUITE_COUNTS"))
@@ -17,7 +18,7 @@ for d in sorted(glob.glob(os.path.join(HERE, "seeded", "*"))):
     checks = m.group(1).split() if m and m.group(1) != "-" else []
     prop = sid.split("-")[0]
     meta = dict(
-        id=sid, property=prop, round=2 if "-r2m" in sid else 1,
+        id=sid, property=prop, round=int(re.search(r"-r(\d+)m", sid).group(1)) if re.search(r"-r(\d+)m", sid) else 1,
         origin="fresh sub-agent given only the property text and a scratch worktree of /repo (nothing from /verif)",
         summary=a.get("summary"), needs_to_manifest=a.get("needs_to_manifest"), files_touched=a.get("files_touched"),
         agent_commands=a.get("commands_run"), agent_results=a.get("results"),
@@ -31,5 +32,7 @@ for d in sorted(glob.glob(os.path.join(HERE, "seeded", "*"))):
     )
     if meta["round"] == 2:
         meta["first_run_before_hardening"] = next((k for k, v in FIRST_RUN_R2.items() if sid in v), "?")
+    elif meta["round"] > 2:
+        meta["first_run_before_hardening"] = FIRST_RUN_LATER.get(sid, "?")
     json.dump(meta, open(os.path.join(d, "meta.json"), "w"), indent=1)
 print("ok", len(glob.glob(os.path.join(HERE, "seeded", "*"))))
